@@ -87,6 +87,7 @@ const canaryPath = "/tmp/verif_c11_canary.tpl"
 const canaryText = "CANARY-CONTENT-FROM-THE-REAL-FILE-SYSTEM"
 
 func suiteC11(cfg Config, res *Result) {
+	defer c11UnderscoreNames(res)
 	defer c11IncludeOptions(res)
 	defer c11RealLoaders(res)
 	defer c11BrokenReads(cfg, res)
